@@ -555,6 +555,136 @@ func evalClientLive(t *testing.T, r *mc.Run, spec answerSpec, e enc.Encoder) {
 	r.State(mc.Hash("client-live", outcome))
 }
 
+// ---- client side, staged: ONE answer of the real handshake is replaced --------------------
+
+type stagedCase struct {
+	Side string `json:"side"` // "client-staged"
+	At   int    `json:"at"`   // the exchange whose answer is replaced (1 = the version request)
+	Mut  string `json:"mut"`
+}
+
+var stagedMuts = []string{"badip", "trunc0", "trunc1", "trunc2", "trunc3", "no-records", "refused"}
+
+func stagedCases(thorough bool) []stagedCase {
+	n := 40
+	if thorough {
+		n = 120
+	}
+	var out []stagedCase
+	for at := 1; at <= n; at++ {
+		for _, m := range stagedMuts {
+			out = append(out, stagedCase{"client-staged", at, m})
+		}
+	}
+	return out
+}
+
+// evalClientStaged runs the client's whole Handshake() against the real server over a
+// transparent path, except that the answer to exchange number At is a different one: the
+// server's own answer to a peer whose address changed (BADIP in the shape of whatever command
+// that exchange carries), the genuine answer cut down to k payload octets, an answer without
+// records, or REFUSED. Whatever stage of the handshake that hits, the client must not crash
+// and the handshake must end (either way).
+func evalClientStaged(t *testing.T, r *mc.Run, c stagedCase) {
+	r.Eval(1)
+	r.Transition(c.At)
+	outcome := "ended"
+	hsPanic := ""
+	res := bubble.Run(t, func() {
+		path := world.DnsPath{}
+		path.From = func(exch int) net.Addr {
+			if exch == c.At && c.Mut == "badip" {
+				return &net.UDPAddr{IP: net.IPv4(10, 77, 77, 77), Port: 7777}
+			}
+			return nil
+		}
+		path.Answer = func(exch int, q, a *dns.Msg) bool {
+			if exch != c.At {
+				return true
+			}
+			switch {
+			case strings.HasPrefix(c.Mut, "trunc"):
+				k := int(c.Mut[5] - '0')
+				for _, rr := range a.Answer {
+					switch v := rr.(type) {
+					case *dns.NULL:
+						if len(v.Data) > 2+k {
+							v.Data = v.Data[:2+k]
+						}
+					case *dns.TXT:
+						if len(v.Txt) > 0 && len(v.Txt[0]) > 2+k {
+							v.Txt = []string{v.Txt[0][:2+k]}
+						}
+					}
+				}
+			case c.Mut == "no-records":
+				a.Answer = nil
+			case c.Mut == "refused":
+				a.Answer = nil
+				a.Rcode = dns.RcodeRefused
+			}
+			return true
+		}
+		w, err := world.New(world.Options{Carrier: "dns", Channels: []string{"x"}, DnsRaw: true, DnsPath: path})
+		if err != nil {
+			outcome = "setup"
+			return
+		}
+		cl, dg, err := w.Dns.NewClientConn()
+		if err != nil {
+			outcome = "setup"
+			return
+		}
+		dg.OnExchange = func(n int) {
+			if n > 5000 {
+				outcome = "runaway"
+				runtime.Goexit()
+			}
+		}
+		done := make(chan error, 1)
+		go func() {
+			defer func() {
+				if p := recover(); p != nil {
+					buf := make([]byte, 8192)
+					buf = buf[:runtime.Stack(buf, false)]
+					hsPanic = fmt.Sprintf("%v\n%s", p, buf)
+					done <- fmt.Errorf("panic")
+				}
+			}()
+			done <- cl.Handshake()
+		}()
+		finished := false
+		for m := 0; m < 30 && !finished && outcome != "runaway"; m++ {
+			bubble.Wait()
+			select {
+			case err := <-done:
+				finished = true
+				if err != nil {
+					outcome = "failed"
+				}
+			default:
+				bubble.Advance(time.Minute)
+			}
+		}
+		if !finished && outcome != "runaway" {
+			outcome = "does-not-end"
+		}
+		cl.Close()
+	})
+	if hsPanic != "" && res.Panic == "" {
+		res.Panic = hsPanic
+	}
+	switch {
+	case res.Panic != "":
+		outcome = "panic"
+		r.Fail("client-panic|staged|"+panicSite(res.Panic), fmt.Sprintf("real handshake with the answer to exchange %d replaced (%s): the client panicked: %s", c.At, c.Mut, strings.SplitN(res.Panic, "\n", 2)[0]), c.At, c)
+	case outcome == "does-not-end" || outcome == "runaway":
+		r.Fail("client-handshake-"+outcome+"|staged|"+c.Mut, fmt.Sprintf("real handshake with the answer to exchange %d replaced (%s): Handshake() %s within 30 fake minutes / 5000 exchanges", c.At, c.Mut, outcome), c.At, c)
+	}
+	r.State(mc.Hash("client-staged", outcome, c.Mut))
+	r.Nontrivial(mc.Hash(fmt.Sprintf("%+v", c)))
+}
+
 // ---- enumeration ----------------------------------------------------------------------------
 
 func serverCases(thorough bool) []Case {
@@ -716,6 +846,12 @@ func TestCheck(t *testing.T) {
 			}
 			return
 		}
+		if c.Side == "client-staged" {
+			var sc stagedCase
+			r.DecodeReplay(&sc)
+			evalClientStaged(t, r, sc)
+			return
+		}
 		if c.Side == "server-serve" {
 			var sc serveCase
 			r.DecodeReplay(&sc)
@@ -763,6 +899,12 @@ func TestCheck(t *testing.T) {
 			}
 			idx++
 		}
+	}
+	for _, sc := range stagedCases(r.Thorough()) {
+		if r.Mine(idx) {
+			evalClientStaged(t, r, sc)
+		}
+		idx++
 	}
 	for _, sc := range serveCases() {
 		if r.Mine(idx) {
